@@ -26,6 +26,9 @@ from queue import Empty
 def stage_detects(stage, n_items, n_workers):
     """Does the real entry point raise when its (joined) workers report a non-zero exit code?"""
     rec = mpmodel.extract_producer(lambda: stage.run_entry(n_items, n_workers, lambda k: None), exitcode=1, alive=False)
+    if rec.raised is not None and rec.raised.split(":")[0] in ("AttributeError", "TypeError", "NameError", "NotImplementedError", "HarnessError"):
+        # that is a limit of the recording fakes (or a crash of the entry point), not the code noticing the failed worker
+        raise HarnessError("%s: the entry point raised %s against failing fake processes: cannot tell whether it detects worker failures" % (stage.name, rec.raised))
     return rec.raised is not None, rec
 
 
